@@ -200,7 +200,7 @@ ASSIGN = ['FOO=1', 'AGENTPACK_HOME=/home/u/agentpack', 'X=/opt/agentpack', 'RUST
 WRAP = ['', '', '', 'sudo', 'sudo -E', 'env', 'time', 'nohup', 'exec', 'command', 'xargs -n1', 'sudo -u deploy']
 OTHER = ['echo done', 'git status', 'tee log.txt', 'jq .', 'cat agentpack.yaml', 'echo agentpack lock', 'cd ~/agentpack', 'true', 'grep -q ok',
          'echo "run agentpack deploy --apply"', 'ls /opt/agentpack']
-SUBARGS = {'add': ['skill', 'local:modules/x'], 'remove': ['skill:x'], 'overlay edit': ['skill:x'], 'overlay rebase': ['skill:x'],
+SUBARGS = {'add': ['skill:review', 'git:https://github.com/acme/skills#ref=v1.2.0'], 'remove': ['skill:x'], 'overlay edit': ['skill:x'], 'overlay rebase': ['skill:x'],
            'overlay path': ['skill:x'], 'remote set': ['https://github.com/acme/cfg.git'], 'rollback': ['--to', '1700000000000'],
            'evolve restore': [], 'evolve propose': ['--module-id', 'skill:x'], 'explain plan': [], 'completions': ['bash'],
            'init': ['--git'], 'bootstrap': ['--scope', 'project'], 'update': ['--lock'], 'deploy': [], 'doctor': [], 'import': []}
@@ -218,7 +218,7 @@ def gen_argv(rng, cat, want=None):
     extra = []
     for _ in range(rng.choice([0, 0, 1, 1, 2])):
         f = pick(rng, cat.value_flags)
-        v = pick(rng, ['x', '/tmp/repo', 'default', 'codex', 'm1', '~/agentpack', 'lock', 'deploy', '--json', 'overlay', 'a;b'])
+        v = pick(rng, ['x', '/tmp/repo', 'default', 'codex', 'm1', '~/agentpack', 'lock', 'deploy', '--json', 'overlay', 'a;b', 'team#2', 'a#b', '#7', "'#q'"])
         extra.append([f + '=' + v] if rng.random() < 0.25 else [f, v])
     if rng.random() < 0.05: extra.append([pick(rng, ['--verbose', '-v', '--no-color', '-'])])
     if rng.random() < 0.03: extra.append(['--'])
@@ -251,6 +251,7 @@ def gen_simple(rng, cat):
         word = pick(rng, WORDS_AP) if rng.random() < 0.9 else pick(rng, WORDS_NEAR)
         toks = pre + [word] + gen_argv(rng, cat)
         if rng.random() < 0.12: toks += [pick(rng, ['2>&1', '>/dev/null', '> out.json', '2>/dev/null', '<in.json'])]
+        if rng.random() < 0.06: toks.insert(rng.randrange(1, len(toks) + 1), pick(rng, ['#', '# note', 'x#y', 'https://h/o/r#frag', '"#"']))
         b = pick(rng, BLANKS) if rng.random() < 0.15 else ' '
         return b.join(toks)
     return pick(rng, OTHER)
@@ -806,6 +807,9 @@ CORPUS_FILES = [   # (body, must be reported?)  — the first six are the F9 wit
     ('agentpack policy --repo x lock --yes', True), ('agentpack --profile lock status --json', False),
     ('agentpack deploy --apply --json --yes', False), ('agentpack import', False), ('agentpack policy lint --json', False),
     ('sudo -E env X=1 /usr/local/bin/agentpack evolve --yes propose --json', False), ('echo ok & agentpack sync', True),
+    # a '#' inside a word is literal in a shell: what follows it on the line still runs
+    ('agentpack --json --yes add skill:review git:https://github.com/acme/skills#ref=v1.2.0 && agentpack deploy --apply', True),
+    ('agentpack status --profile team#2 --json; agentpack update', True), ('agentpack deploy --profile a#b --apply', True),
 ]
 CORPUS_URLS = [   # (url, allow) — must NOT match
     ('ssh://evil.com/x@github.com/org/r', 'github.com/org'), ('https://github.com/org/../other/r', 'github.com/org'),
